@@ -130,8 +130,12 @@ def slice_ops(ctx, deep):
     return ops
 
 
+# the numbers the PROPERTY names (100 ms margin, 30 moves, 80 %) — not the ones the source has now
+C09_PROPERTY = {"safeguard": 100, "game_length": 30, "usage": Fraction(4, 5)}
+
+
 def check_C09(ctx, deep=False):
-    k = consts()
+    k = dict(consts(), **C09_PROPERTY)
     ctx.rule = ("`slice`: boundary lattice of clock x increment x movestogo x colour (exhaustive over the lattice) plus random "
                 "i128 clocks; exact rational oracle: slice <= max(clock,0); clock>margin => slice <= usage*(clock-margin)/mtg "
                 "(+ whole-ms rounding); clock<=margin and inc<=0 => 0; result independent of the opponent's fields; "
